@@ -1,2 +1,3 @@
 //! Glue between TLC-generated cases and the real glas crates.
+pub mod lexis;
 pub mod util;
